@@ -271,7 +271,7 @@ Proof.
     cbn [map fst increasing] in Hi. destruct Hi as [Hlt Hi].
     inversion Hf as [|? ? Hrel Hf']; subst. cbn [fst] in Hrel.
     replace (Nat.ltb prev rel) with true in E by (symmetry; apply Nat.ltb_lt; exact Hlt).
-    destruct (IH rel (update_vals last gv) x1 Hrel Hi Hf' E1) as (data' & heads' & Hd & Hs).
+    destruct (IH rel _ x1 Hrel Hi Hf' E1) as (data' & heads' & Hd & Hs).
     exists (x ++ data'), (x0 ++ heads'). split.
     + rewrite <- (firstn_skipn (rel - prev) (skipn prev rows)).
       apply table_encode_app; [exact E|].
